@@ -12,6 +12,7 @@ import (
 
 var (
 	ErrUnknownKeyType = errors.New("unknown key type")
+	ErrMalformedIndex = errors.New("malformed index")
 )
 
 type indexedField struct {
@@ -35,10 +36,17 @@ func (f *indexedField) UnmarshalJSON(data []byte) error {
 	if err := dec.Decode(&tuple); err != nil {
 		return err
 	}
+	if len(tuple) != 2 {
+		return fmt.Errorf("%w: entry must be a [value, object id] tuple", ErrMalformedIndex)
+	}
 	f.Value = tuple[0]
-	id, err := strconv.ParseUint(tuple[1].(json.Number).String(), 10, 64)
+	num, ok := tuple[1].(json.Number)
+	if !ok {
+		return fmt.Errorf("%w: object id must be a number", ErrMalformedIndex)
+	}
+	id, err := strconv.ParseUint(num.String(), 10, 64)
 	if err != nil {
-		return err
+		return fmt.Errorf("%w: %s", ErrMalformedIndex, err)
 	}
 	f.ObjectId = id
 	return nil
@@ -84,24 +92,34 @@ func newIndexedField(value interface{}, objid uint64) (*indexedField, error) {
 	return &indexedField{value, objid}, err
 }
 
-func (f *indexedField) valueTypeFromString(t string) {
+func (f *indexedField) valueTypeFromString(t string) (err error) {
 	// numbers come out of UnmarshalJSON as json.Number and are parsed
 	// according to the type the field index casts to, without loss
-	var err error
 	switch t {
-	case "float64":
-		f.Value, err = f.Value.(json.Number).Float64()
-	case "int64":
-		f.Value, err = strconv.ParseInt(f.Value.(json.Number).String(), 10, 64)
-	case "uint64":
-		f.Value, err = strconv.ParseUint(f.Value.(json.Number).String(), 10, 64)
+	case "float64", "int64", "uint64":
+		num, ok := f.Value.(json.Number)
+		if !ok {
+			return fmt.Errorf("%w: %T value in a %s index", ErrMalformedIndex, f.Value, t)
+		}
+		switch t {
+		case "float64":
+			f.Value, err = num.Float64()
+		case "int64":
+			f.Value, err = strconv.ParseInt(num.String(), 10, 64)
+		case "uint64":
+			f.Value, err = strconv.ParseUint(num.String(), 10, 64)
+		}
+		if err != nil {
+			return fmt.Errorf("%w: %s", ErrMalformedIndex, err)
+		}
 	case "string":
+		if _, ok := f.Value.(string); !ok {
+			return fmt.Errorf("%w: %T value in a %s index", ErrMalformedIndex, f.Value, t)
+		}
 	default:
-		panic(fmt.Errorf("%w %s", ErrUnknownKeyType, t))
+		return fmt.Errorf("%w %s", ErrUnknownKeyType, t)
 	}
-	if err != nil {
-		panic(err)
-	}
+	return
 }
 
 func (f *indexedField) valueTypeString() string {
